@@ -314,9 +314,10 @@ where
                     return Err(RunError::Transport(e))
                 }
 
-                Selected::Transport(Ok(_))
-                | Selected::Handle(_)
-                | Selected::AbortFunctionCall(_) => {}
+                // Mark the call as aborted, otherwise it would be reported again right away.
+                Selected::AbortFunctionCall(serial) => self.function_calls.abort(serial),
+
+                Selected::Transport(Ok(_)) | Selected::Handle(_) => {}
             }
         }
 
